@@ -315,11 +315,43 @@ pub fn gen_header_line(rng: &mut Rng, cfg: &GenCfg) -> Vec<u8> {
                 "identity;q=0.5",
                 "identity, *;q=0",
                 "deflate;q=0",
+                // only the literal entries `identity;q=0` and `*;q=0` (without identity) are fatal: other
+                // spellings of a zero weight, other positions in longer lists
+                "identity;q=0.0",
+                "identity;q=0.000",
+                "identity;q=-0",
+                "identity;q=0e0",
+                "*;q=0.0",
+                "gzip, deflate, br",
+                "gzip, deflate, identity;q=0",
+                "gzip, deflate, br, *;q=0",
+                "identity;q=0, gzip",
+                "*;q=0, gzip",
+                "*;q=0, identity;q=0.5",
+                "gzip;q=1.0, identity; q=0",
             ]))
             .into(),
         ),
         6 => {
-            let names = ["X-Tag", "Host", "User-Agent", "x-tag", "X-Tag ", "Foo", "Content-Lengthy", "Accepts"];
+            // (incl. names that equal a recognised name only after Unicode case mapping: U+017F long s,
+            // U+0131 dotless i, U+212A Kelvin sign - they are custom names)
+            let names = [
+                "X-Tag",
+                "Host",
+                "User-Agent",
+                "x-tag",
+                "X-Tag ",
+                "Foo",
+                "Content-Lengthy",
+                "Accepts",
+                "X-TAG",
+                "foo",
+                "\u{17f}erver",
+                "Tran\u{17f}fer-Encoding",
+                "Accept-Encod\u{131}ng",
+                "Content-Length\u{17f}",
+                "E\u{445}pect",
+            ];
             {
                 let n = rng.below(12);
                 ((*rng.pick(&names)).into(), token(rng, n))
